@@ -7,6 +7,7 @@ declare -A FALLBACK=( [C08-r2-m2]="thorough:C08" [C11-r2-m2]="quick:C17" [C11-m1
 for d in seeded/$1; do
   id=$(basename $d); p=${id%%-*}
   [ -f $d/patch.diff ] || continue
+  if [ -z "$FORCE" ] && grep -q '"caught_by"' $d/meta.json; then continue; fi
   res=$(timeout 3000 ./mutest.sh /verif/$d/patch.diff $p 2>&1 | tail -1)
   if ! echo "$res" | grep -q "^CAUGHT"; then
     fb=${FALLBACK[$id]}
